@@ -30,6 +30,7 @@ const (
 	fBOM             = "C05-bom-rejected"
 	fQueryKeyword    = "C05-query-keyword-omitted"
 	fBlockBackslash  = "C05-block-string-leading-backslash"
+	fDescLoneCR      = "C05-description-lone-cr"
 	fImplementsIdent = "C05-implements-followed-by-definition"
 )
 
@@ -155,23 +156,24 @@ func nulInString(d *ast.Document) bool {
 	return hit
 }
 
-// blockQuotesInDoc: a block string with a quote next to a delimiter: its content starts or
-// ends in a quote, or the content is not delimited (after white space) by exactly three quotes
-// on each side — i.e. the lexer cut the content at a quote that touches white space.
+// reBlockQuoteAdjacent: in the *input*, a quote or backslash touches a block-string delimiter
+// (white space aside): four or more quotes in a row, a quote before white space before """,
+// """ before white space before a quote, or a backslash (and white space) before """. The
+// recogniser deliberately looks at the input bytes and not at the parsed content, so that a
+// lexer that starts cutting block strings in the wrong place is not mistaken for this finding.
+var reBlockQuoteAdjacent = regexp.MustCompile(`"{4,}|"[ \t\r\n]+"""|"""[ \t\r\n]+"|\\[ \t\r\n]*"""`)
+
+// blockQuotesInDoc: the document has a block string and its input a quote/backslash next to a
+// block-string delimiter.
 func blockQuotesInDoc(d *ast.Document) bool {
-	for _, b := range blockLiterals(d) {
-		if strings.HasSuffix(b.content, `"`) || strings.HasPrefix(b.content, `"`) || !b.clean || b.extraQuote {
-			return true
-		}
-	}
-	return false
+	return len(blockLiterals(d)) > 0 && reBlockQuoteAdjacent.Match(d.Input.RawBytes)
 }
 
 // blockTrimInDoc: a block string whose BlockStringValue changes when the white space around
 // the text is removed (what the lexer does to the content reference).
 func blockTrimInDoc(d *ast.Document) bool {
 	for _, b := range blockLiterals(d) {
-		if b.clean && blockTrimClass(b.raw) {
+		if b.clean && !b.extraQuote && blockTrimClass(b.raw) {
 			return true
 		}
 	}
@@ -182,7 +184,7 @@ func blockTrimInDoc(d *ast.Document) bool {
 // neither white space nor a quote.
 func blockBackslashInDoc(d *ast.Document) bool {
 	for _, b := range blockLiterals(d) {
-		if blockBackslashClass(b.content) {
+		if b.clean && !b.extraQuote && blockBackslashClass(b.raw) {
 			return true
 		}
 	}
@@ -202,6 +204,20 @@ func floatDanglingExponent(d *ast.Document) bool {
 		}
 	}
 	return false
+}
+
+// descLoneCRInDoc: a block-string description whose text contains a carriage return that is
+// not followed by a line feed.
+func descLoneCRInDoc(d *ast.Document) bool {
+	hit := false
+	forEachDescription(d, func(ds ast.Description) {
+		if ds.IsDefined && ds.IsBlockString && ds.Content.Start <= ds.Content.End && int(ds.Content.End) <= len(d.Input.RawBytes) {
+			if blockLoneCRClass(string(d.Input.RawBytes[ds.Content.Start:ds.Content.End])) {
+				hit = true
+			}
+		}
+	})
+	return hit
 }
 
 func schemaEmptyInDoc(d *ast.Document) bool {
@@ -299,6 +315,8 @@ func classifyAccepted(d *ast.Document, k string, diff string) string {
 			return fBlockBackslash
 		case (strings.Contains(diff, "blockstring") || strings.Contains(diff, "desc")) && blockTrimInDoc(d):
 			return fBlockTrim
+		case strings.Contains(diff, "desc") && descLoneCRInDoc(d):
+			return fDescLoneCR
 		case strings.Contains(diff, "float") && floatDanglingExponent(d):
 			return fFloatExpSign
 		case queryKeywordNeededInDoc(d):
@@ -469,6 +487,24 @@ func probes() pbt.Probes {
 		fExtImplements:   {Input: `extend type T implements A { a: Int }`, Fn: probeRoundTrip(`extend type T implements A { a: Int }`)},
 		fBOM:             {Input: "\ufeff{ a }", Fn: probeRejected("\ufeff{ a }")},
 		fQueryKeyword:    {Input: `query @d { a }`, Fn: probeRoundTrip(`query @d { a }`)},
+		fDescLoneCR: {Input: "type T { \"\"\"\na\rb\n\"\"\" f: Int }", Fn: func() string {
+			in := "type T { \"\"\"\na\rb\n\"\"\" f: Int }"
+			d, ok := parseStr(in)
+			if !ok {
+				return ""
+			}
+			_, s1 := walkDoc(d)
+			p1 := printOf(d, true)
+			d2, ok := parseStr(p1)
+			if !ok {
+				return ""
+			}
+			_, s2 := walkDoc(d2)
+			if df := diffShape(s1, s2); df != "" {
+				return fmt.Sprintf("%q prints (indented) as %q: the description value changes: %s", in, p1, df)
+			}
+			return ""
+		}},
 		fBlockBackslash:  {Input: "\"\"\"\\a\"\"\" type T { a: Int }", Fn: probeRoundTrip("\"\"\"\\a\"\"\" type T { a: Int }")},
 		fImplementsIdent: {Input: `type T implements A type U { a: Int }`, Fn: probeRejected(`type T implements A type U { a: Int }`)},
 	}
